@@ -106,3 +106,25 @@ Proof. unfold block_index. intros. nia. Qed.
 Lemma wrong_stride_aliases_lemma : forall stride stride', stride' < stride ->
   block_index stride' 1 0 = block_index stride' 0 stride' /\ stride' < stride.
 Proof. unfold block_index. intros. split; lia. Qed.
+
+(** the flat arrays of a batch are the concatenation of its systems *)
+
+Lemma flat_layout_lemma : forall (A : Type) (d : A) (stride : nat) (b : list (list A)) (s i : nat),
+  Forall (fun sys => length sys = stride) b -> s < length b -> i < stride ->
+  nth (block_index stride s i) (concat b) d = nth i (nth s b []) d.
+Proof.
+  intros A d stride b. induction b as [|sys b IH]; intros s i Hall Hs Hi; [cbn in Hs; lia|].
+  inversion Hall as [|? ? Hlen Hall']; subst.
+  cbn [concat]. destruct s as [|s].
+  - unfold block_index. cbn [nth Nat.mul Nat.add]. rewrite app_nth1 by lia. reflexivity.
+  - unfold block_index. cbn [nth]. rewrite app_nth2 by (cbn; lia).
+    replace (S s * length sys + i - length sys) with (s * length sys + i) by (cbn; lia).
+    apply (IH s i Hall'); cbn in Hs; lia.
+Qed.
+
+Lemma flat_length_lemma : forall (A : Type) (stride : nat) (b : list (list A)),
+  Forall (fun sys => length sys = stride) b -> length (concat b) = length b * stride.
+Proof.
+  intros A stride b Hall. induction Hall as [|sys b Hlen Hall IH]; [reflexivity|].
+  cbn [concat length]. rewrite app_length, IH, Hlen. lia.
+Qed.
